@@ -14,9 +14,18 @@ def sh(cmd, cwd=None, env=None, timeout=7200):
 
 def run_demo(wt, demo, env, tag):
     if demo.endswith(".rs"):
-        dest = "crates/step_sim/tests/%s.rs" % tag
+        # the README says which crate's tests directory the demonstration belongs to
+        rd = os.path.join(os.path.dirname(demo), "README.md")
+        crate_dir = "step_sim"
+        if os.path.exists(rd):
+            m = re.search(r"crates/(order_book|step_sim|macros)/tests", open(rd).read())
+            if m:
+                crate_dir = m.group(1)
+        pkg = {"order_book": "bourse-book", "step_sim": "bourse-de", "macros": "bourse-macros"}[crate_dir]
+        dest = "crates/%s/tests/%s.rs" % (crate_dir, tag)
+        os.makedirs(os.path.dirname(os.path.join(wt, dest)), exist_ok=True)
         shutil.copy(demo, os.path.join(wt, dest))
-        rc, o = sh("cargo test -p bourse-de --offline --test %s 2>&1 | tail -25" % tag, cwd=wt, env=env)
+        rc, o = sh("cargo test -p %s --offline --test %s 2>&1 | tail -25" % (pkg, tag), cwd=wt, env=env)
         os.remove(os.path.join(wt, dest))
         ok = "test result: ok" in o and "FAILED" not in o and "error" not in o.split("test result")[0][-200:]
         return ok, o
@@ -42,6 +51,9 @@ def main():
         if a.startswith("--tier="):
             tier = a.split("=", 1)[1]
     wt = "/tmp/wt_%s" % prop
+    for a in sys.argv[3:]:
+        if a.startswith("--wt="):
+            wt = a.split("=", 1)[1]
     src = os.path.join(wt, "_seeded", var)
     d = "/verif/seeded/%s_%s" % (prop, var)
     if not os.path.isdir(src):
